@@ -560,6 +560,18 @@ def _vars_of(t):
     return out
 
 
+def _oneshot(p, t, timeout_ms):
+    s2 = z3.Solver()
+    s2.set("timeout", int(timeout_ms))
+    s2.add(*p.asserts)
+    s2.add(z3.Not(t))
+    t0 = time.perf_counter()
+    r = s2.check()
+    p.tq += time.perf_counter() - t0
+    p.nq += 1
+    return r, (s2.model() if r == z3.sat else None)
+
+
 def _local_unsat(p, t):
     vs = _vars_of(t)
     if not vs:
@@ -639,12 +651,15 @@ def _pyval(v):
 HARNESSES = {}
 
 
-def harness(name, cases=None, expect=None):
+def harness(name, cases=None, expect=None, whole=False):
     """Register a harness.  `cases`: callable(tier) -> list of picklable case params.
     `expect`: callable(case) -> iterable of obligation names that must be reached on at least
     one feasible path (vacuity guard)."""
     def deco(f):
-        HARNESSES[name] = {"f": f, "cases": cases or (lambda tier: [None]), "expect": expect}
+        # whole=True: each case is explored by one worker with one incremental solver (no
+        # splitting of the path tree) -- for NRA-heavy harnesses where learned lemmas matter
+        HARNESSES[name] = {"f": f, "cases": cases or (lambda tier: [None]), "expect": expect,
+                           "whole": whole}
         f.harness_name = name
         return f
     return deco
@@ -871,9 +886,17 @@ def explore(hnames, tier="quick", opts=None, time_budget=None, serial=False):
     queue = list(work)
     qto = opts.get("query_timeout_ms", 10000) / 1000.0
     hard = opts.get("hang_seconds", max(60.0, 4 * qto + opts.get("chunk_seconds", 20.0) + 20))
+    hard_whole = (time_budget or 3600) + 60
 
     def busy():
         return [w for w in pl.workers if w.item is not None]
+
+    # solver-heavy ("whole") harnesses run first and without competition from the light ones:
+    # z3's non-linear queries slow down several-fold when all cores are busy
+    queue.sort(key=lambda it: 1 if HARNESSES[it[0]].get("whole") else 0)
+
+    def whole_running():
+        return any(HARNESSES[w.item[0]].get("whole") for w in busy())
 
     while queue or busy():
         over = time_budget and time.perf_counter() - t0 > time_budget
@@ -884,9 +907,14 @@ def explore(hnames, tier="quick", opts=None, time_budget=None, serial=False):
         progressed = False
         for wi, w in enumerate(pl.workers):
             if w.item is None:
-                if queue:
+                if queue and not (whole_running() and not HARNESSES[queue[-1][0]].get("whole")):
                     item = queue.pop()
-                    if len(queue) + len(busy()) < 3 * nproc:
+                    if HARNESSES[item[0]].get("whole"):
+                        o = dict(item[4])
+                        o["chunk_paths"] = 10 ** 9
+                        o["chunk_seconds"] = 10 ** 9
+                        item = item[:4] + (o,) + item[5:]
+                    elif len(queue) + len(busy()) < 3 * nproc:
                         o = dict(item[4])
                         o["chunk_paths"] = min(o.get("chunk_paths", 64), 6)
                         o["chunk_seconds"] = min(o.get("chunk_seconds", 20.0), 3.0)
@@ -923,7 +951,8 @@ def explore(hnames, tier="quick", opts=None, time_budget=None, serial=False):
                     if not w.proc.is_alive():
                         w.kill()
                         pl.workers[wi] = _Worker()
-            elif time.perf_counter() - w.t0 > hard or not w.proc.is_alive():
+            elif time.perf_counter() - w.t0 > (hard_whole if HARNESSES[w.item[0]].get("whole") else hard) \
+                    or not w.proc.is_alive():
                 item = w.item
                 agg[item[0]]["hung"] += 1
                 agg[item[0]]["aborted_msgs"].append(
